@@ -2,6 +2,7 @@ package props
 
 import (
 	"fmt"
+	"io"
 	"runtime"
 	"sort"
 	"strings"
@@ -44,8 +45,12 @@ type TeardownCase struct {
 	HeaderPauseUS int `json:"header_pause_us,omitempty"`
 	// ChildDelayUS: the services answer the child-step requests of an event after this delay, so that a teardown
 	// can fall into a request that is in flight
-	ChildDelayUS int  `json:"child_delay_us,omitempty"`
-	RealWS       bool `json:"real_ws,omitempty"`
+	ChildDelayUS int `json:"child_delay_us,omitempty"`
+	// ChildDropStall: the service of the child steps loses the connection of the first child request without an
+	// answer and does not answer any later one (until the case is over); a client that ends its connection must
+	// still be let go
+	ChildDropStall bool `json:"child_drop_stall,omitempty"`
+	RealWS         bool `json:"real_ws,omitempty"`
 	// MuteClose: the real websocket upstream never answers close frames (only the end of the TCP connection ends it)
 	MuteClose bool `json:"mute_close,omitempty"`
 }
@@ -200,6 +205,35 @@ func checkC18(c *TeardownCase) (*ev.Failure, map[string]bool) {
 	if c.ChildDelayUS > 0 {
 		net.BeforeRespond = func(string, []*fake.Received) { time.Sleep(time.Duration(c.ChildDelayUS) * time.Microsecond) }
 	}
+	if c.ChildDropStall {
+		release := make(chan struct{})
+		defer close(release)
+		var dsMu sync.Mutex
+		childCalls := 0
+		isChild := func(reqs []*fake.Received) bool {
+			return len(reqs) > 0 && strings.Contains(reqs[0].Query, "node(id: $id)")
+		}
+		net.Fault = func(callIdx int, url string, reqs []*fake.Received, normal []map[string]interface{}) *fake.FaultResponse {
+			if !isChild(reqs) {
+				return nil
+			}
+			dsMu.Lock()
+			defer dsMu.Unlock()
+			childCalls++
+			if childCalls == 1 {
+				return &fake.FaultResponse{Err: io.EOF}
+			}
+			return nil
+		}
+		net.Stall = func(url string, reqs []*fake.Received) <-chan struct{} {
+			dsMu.Lock()
+			defer dsMu.Unlock()
+			if isChild(reqs) && childCalls >= 1 {
+				return release
+			}
+			return nil
+		}
+	}
 	up := subx.NewUpstream(net)
 	var gw *pebbles.Gateway
 	if c.RealWS {
@@ -329,6 +363,9 @@ func checkC18(c *TeardownCase) (*ev.Failure, map[string]bool) {
 				val := map[string]interface{}{"humanAdded": map[string]interface{}{"id": "Human_1", "name": "ann"}, "tick": k}
 				for j := 0; j < 150; j++ {
 					val[fmt.Sprintf("w%d_%d", k%2, j)] = j
+				}
+				if k%3 == 0 {
+					val["pad"] = strings.Repeat("p", 6000) // a frame beyond any small-frame fast path
 				}
 				if s.up != nil {
 					select {
@@ -524,6 +561,9 @@ func genTeardownCase(t *rapid.T) *TeardownCase {
 	if rapid.IntRange(0, 2).Draw(t, "slowchild") == 0 {
 		c.ChildDelayUS = rapid.IntRange(500, 8000).Draw(t, "childdelay")
 	}
+	if rapid.IntRange(0, 5).Draw(t, "dropstall") == 0 {
+		c.ChildDropStall = true
+	}
 	if c.NSubs >= 2 && rapid.IntRange(0, 2).Draw(t, "barrier") == 0 {
 		c.Barriers = []string{rapid.SampledFrom([]string{"se.Listen.beforeWrite", "se.Close.beforeSend", "se.Listen.deferEnter", "se.Listen.beforeLock"}).Draw(t, "barrierpoint")}
 	}
@@ -575,7 +615,7 @@ func TestC18(t *testing.T) {
 		t.Fatal("C18 needs -tags verif")
 	}
 	rec := ev.Get("C18")
-	rec.Rule = "histories of 2..10 client actions (start, stop, terminate, abrupt disconnect, websocket close frame, malformed JSON, start without payload, unknown type, invalid query) and upstream actions (event, complete, error, disconnect) over 1..3 subscriptions on one connection (harness-owned net.Pipe), each step either followed by a settle pause or racing with the next one; upstream scripted in process (75%) or a real graphql-ws server behind the real MultiOpQueryer.Subscribe (25%); for single-subscription cases 1..3 drawn ordering constraints 'hook point P before hook point Q' over 18 verif hook points, enforced by parking the goroutine that reaches Q first (bounded). Oracle: process alive, handler returns (30s limit) after the final client disconnect, every byte sequence received parses as complete RFC 6455 frames carrying JSON messages, every upstream subscription/connection observed closed and no goroutine of Listen/Close/Subscribe/heartbeat/handler left (30s limit). non-trivial = a teardown action racing an upstream action, or a satisfied ordering constraint; distinct by hash(case)"
+	rec.Rule = "histories of 2..10 client actions (start, stop, terminate, abrupt disconnect, websocket close frame, malformed JSON, start without payload, unknown type, invalid query) and upstream actions (event, burst of 5..60 wide events some beyond 6 KB, complete, error, disconnect) over 1..3 subscriptions on one connection (harness-owned net.Pipe), each step either followed by a settle pause or racing with the next one; child requests optionally slow, or the first one losing its connection and later ones never answered (released only by the end of the request context); upstream scripted in process (75%) or a real graphql-ws server behind the real MultiOpQueryer.Subscribe (25%); for single-subscription cases 1..3 drawn ordering constraints 'hook point P before hook point Q' over 18 verif hook points, enforced by parking the goroutine that reaches Q first (bounded). Oracle: process alive, handler returns (30s limit) after the final client disconnect, every byte sequence received parses as complete RFC 6455 frames carrying JSON messages, every upstream subscription/connection observed closed and no goroutine of Listen/Close/Subscribe/heartbeat/handler left (30s limit). non-trivial = a teardown action racing an upstream action, or a satisfied ordering constraint; distinct by hash(case)"
 	defer census.dump("C18")
 	rapid.Check(t, func(t *rapid.T) {
 		c := genTeardownCase(t)
@@ -675,14 +715,24 @@ func TestC18Heartbeat(t *testing.T) {
 			}
 			defer cc.Close()
 			cc.SendJSON(map[string]interface{}{"type": "connection_init"})
-			cc.SendJSON(map[string]interface{}{"type": "start", "id": "h1", "payload": map[string]interface{}{"query": teardownOps[1]}})
-			var sub *subx.UpSub
-			select {
-			case sub = <-up.NewSub:
-			case <-time.After(3 * time.Second):
-				fails <- ev.Failf("harness", "subscription not started")
-				return
+			// every second connection carries three subscriptions that deliver large frames at the same time: several
+			// writers queue for the connection while one of them is parked between header and payload
+			nsub := 1
+			if k%2 == 1 {
+				nsub = 3
 			}
+			var hsubs []*subx.UpSub
+			for i := 0; i < nsub; i++ {
+				cc.SendJSON(map[string]interface{}{"type": "start", "id": fmt.Sprintf("h%d", i+1), "payload": map[string]interface{}{"query": teardownOps[1]}})
+				select {
+				case sub := <-up.NewSub:
+					hsubs = append(hsubs, sub)
+				case <-time.After(3 * time.Second):
+					fails <- ev.Failf("harness", "subscription not started")
+					return
+				}
+			}
+			sub := hsubs[0]
 			stop := time.After(4700 * time.Millisecond)
 			var frameErr string
 			kas, datas := 0, 0
@@ -701,15 +751,37 @@ func TestC18Heartbeat(t *testing.T) {
 					}
 				}
 			}()
+			stopOthers := make(chan struct{})
+			var others sync.WaitGroup
+			for _, o := range hsubs[1:] {
+				others.Add(1)
+				go func(o *subx.UpSub) {
+					defer others.Done()
+					for {
+						select {
+						case <-stopOthers:
+							return
+						default:
+							o.Emit(&requests.Response{Data: map[string]interface{}{"tick": 2, "pad": strings.Repeat("q", 6000)}}, time.Second)
+						}
+					}
+				}(o)
+			}
 		loop:
 			for {
 				select {
 				case <-stop:
 					break loop
 				default:
-					sub.Emit(&requests.Response{Data: map[string]interface{}{"tick": 1}}, time.Second)
+					data := map[string]interface{}{"tick": 1}
+					if k%2 == 1 {
+						data["pad"] = strings.Repeat("p", 6000) // large frames on every second connection
+					}
+					sub.Emit(&requests.Response{Data: data}, time.Second)
 				}
 			}
+			close(stopOthers)
+			others.Wait()
 			cc.Close()
 			<-done
 			<-cc.HandlerDone
